@@ -1,4 +1,7 @@
 import PyRatesModel.Generated.Tables
-import PyRatesModel.Hist.DDEHistory
-import PyRatesModel.Lemmas.Hist
+import PyRatesModel.Props.C01
+import PyRatesModel.Props.C03
+import PyRatesModel.Props.C04
+import PyRatesModel.Props.C07
+import PyRatesModel.Props.C15
 import PyRatesModel.Props.C19
